@@ -1,0 +1,13 @@
+//go:build verif
+
+package storage
+
+// VerifHook, when set, receives the intermediate values of the Storage solver: every trial evaluation of the
+// release rule, every spill and every accepted sub-timestep (verification builds only).
+var VerifHook func(kind string, vals ...float64)
+
+func verifStorage(kind string, vals ...float64) {
+	if VerifHook != nil {
+		VerifHook(kind, vals...)
+	}
+}
